@@ -39,6 +39,10 @@ VALUES_FLAT = [1.0, 1.0 + 1e-6, 1.0 + 1.9e-5, 1.0 - 2.1e-5, 1.0 + 1e-4]
 # has a remainder <= dh^2 max|u(1-u)(1-2u)| < 1e-11.  1e-9 leaves a factor 10.
 TOL_UNIT = 1e-9
 TOL_MASS = 32 * EPS
+# 'matches the true conditional': at least 1/RESOLVE_SHARE of the nodes of the returned grid lie in the region it has to cover (conditional above 1e-3 of
+# its peak), and the normalisation error admitted for a coarse grid is capped (the library's own test suite asks 1e-3 of the values)
+RESOLVE_SHARE = 8
+NORM_CAP = 1e-2
 
 
 def _install(us):
@@ -291,12 +295,21 @@ def check_conditional(i, xg, yg, lo, hi, f, m, w, grid_size, fails, slack, detai
             fail(f"{pre}/grid-misses-high-density-region", f"variable {i}: conditional reaches {math.exp(worst):.3g} of its peak outside the "
                  f"grid [{float(xg[0])!r},{float(xg[-1])!r}] but inside the bounds [{lo!r},{hi!r}]", **details)
         )
+    # --- the table resolves the conditional it is said to match: a share of the nodes lies where the conditional exceeds 1e-3 of its peak
+    inside = int((fx - fpk > thr).sum())
+    slack["nodes needed in the high-density region / nodes there"] = max(slack.get("nodes needed in the high-density region / nodes there", 0.0), (grid_size / RESOLVE_SHARE) / max(inside, 0.5))
+    if inside * RESOLVE_SHARE < grid_size:
+        fails.append(
+            fail(f"{pre}/grid-does-not-resolve-the-high-density-region", f"variable {i}: only {inside} of the {grid_size} nodes of the grid [{float(xg[0])!r},{float(xg[-1])!r}] "
+                 f"(spacing {float(xg[1] - xg[0]):.3g}) lie where the conditional exceeds 1e-3 of its peak (peak at {peak_x!r}, width {w:.3g})", **details)
+        )
     # --- normalisation against exact quadrature
     zg = integrate(f, fpk, xg[0], xg[-1], m, w)
     zb = zg + integrate(f, fpk, max(lo, xg[0] - 60 * (xg[-1] - xg[0])), xg[0], m, w) + integrate(f, fpk, xg[-1], min(hi, xg[-1] + 60 * (xg[-1] - xg[0])), m, w)
     # admissible error: that of the two standard composite rules on this very grid
     e_rule = max(abs(R.simpson_ref(true, xg) / zg - 1.0), abs(R.trapz_ref(true, xg) / zg - 1.0))
-    tol_n = 4.0 * e_rule + 1e-9
+    # ... but a grid too coarse for either rule does not excuse the table from being a normalised density: capped
+    tol_n = min(4.0 * e_rule + 1e-9, NORM_CAP)
     val = cmed * zg
     lo_ok, hi_ok = zg / zb - tol_n, 1.0 + tol_n
     dev = max(lo_ok - val, val - hi_ok, 0.0)
@@ -376,7 +389,84 @@ def ev_csample(case):
         C.rng = old
 
 
-EVALUATORS = {"pls": ev_pls, "cond": ev_cond, "csample": ev_csample}
+# ----------------------------------------------------------------------------- narrow conditionals
+# conditionals very narrow relative to the bounds: width of the conditional = REL x width of the bounds, the conditioning coordinate in the
+# high-density region (the only way such a conditional is in the quantifier: the 16-point search cannot meet it), anywhere in the bounds
+NARROW_RELS = [1e-2, 1e-3, 1e-4]
+# position of the conditioning coordinate in the bounds: ("frac", t) at the fraction t of the bounds; ("node", k, q) q conditional widths from the
+# k-th of the 16 evenly spaced nodes (k = 0 / 15: the edges of the bounds; q = 0: exactly on the node / edge)
+NARROW_POS = [("frac", 0.4321), ("node", 0, 1.0), ("node", 15, -1.0), ("frac", 0.03), ("frac", 0.97), ("node", 0, 6.0), ("node", 15, -6.0), ("node", 5, 6.0),
+              ("node", 0, 30.0), ("node", 15, -30.0), ("node", 10, -30.0), ("node", 10, 1.0), ("node", 0, 0.0), ("node", 15, 0.0)]
+
+
+def pos_name(pos):
+    return f"frac={pos[1]}" if pos[0] == "frac" else f"node{pos[1]}{pos[2]:+g}w"
+
+
+def build_narrow_case(case):
+    fam = R.make_family(case["family"], case["s"], case.get("loc", 0.0))
+    d = fam.d
+    mode, sig = fam.mode(), fam.sig()
+    signs = np.array([1.0, -1.0, 1.0])[:d]
+    c = mode + {"mode": 0.0, "off+": 0.6, "off-": -0.6}[case["cp"]] * sig * signs
+    lower_nat = fam.lower if fam.lower is not None else np.full(d, -math.inf)
+    pos = case["pos"]
+    bounds, info = [], []
+    for i in range(d):
+        f = R.line(fam, c, i)
+        m, w = R.cond_mode_width(f, c[i], sig[i], lower=lower_nat[i])
+        if not (f(c[i]) >= f(m) - 2.0):
+            raise HarnessError("conditioning coordinate is not in the high-density region of its conditional")
+        B = w / case["rel"]
+        if pos[0] == "frac":
+            lo = c[i] - pos[1] * B
+        else:
+            lo = c[i] - pos[2] * w - B * pos[1] / 15.0
+        hi = lo + B
+        if pos[0] == "node" and pos[2] == 0.0:  # exactly on the edge / node
+            if pos[1] == 0:
+                lo, hi = float(c[i]), float(c[i]) + B
+            elif pos[1] == 15:
+                lo, hi = float(c[i]) - B, float(c[i])
+        lo = max(lo, lower_nat[i])
+        if not (lo <= c[i] <= hi):
+            raise HarnessError(f"conditioning coordinate outside the bounds: {lo!r} {c[i]!r} {hi!r}")
+        bounds.append((float(lo), float(hi)))
+        info.append((f, m, w))
+    return fam, c, bounds, info
+
+
+def ev_narrow(case):
+    from inference.approx.conditional import get_conditionals
+
+    fam, c, bounds, info = build_narrow_case(case)
+    gs = case["grid_size"]
+    fails, slack, tags = [], {}, set()
+    details = {"bounds": bounds, "conditioning_point": c.tolist(), "case": case}
+    pre = f"narrow{config_class(case)}"
+    with lib("get_conditionals"):
+        axes, probs = get_conditionals(posterior=fam, bounds=[tuple(b) for b in bounds], conditioning_point=c.copy(), grid_size=gs)
+    axes, probs = np.asarray(axes), np.asarray(probs)
+    if axes.shape != (gs, fam.d) or probs.shape != (gs, fam.d):
+        fails.append(fail(f"{pre}/shape", f"axes {axes.shape}, probs {probs.shape}, expected {(gs, fam.d)}", **details))
+        return {"fails": fails, "n": 1}
+    for i in range(fam.d):
+        f, m, w = info[i]
+        lo, hi = bounds[i]
+        sl = {}
+        check_conditional(i, axes[:, i], probs[:, i], lo, hi, f, m, w, gs, fails, sl, dict(details, variable=i, conditional_width=w, conditional_mode=m), pre=pre)
+        for k_, v in sl.items():
+            slack[f"narrow {k_}"] = max(slack.get(f"narrow {k_}", 0.0), v)
+        nodes = np.linspace(lo, hi, 16)
+        dn = float(np.abs(nodes - c[i]).min())
+        nearest = "on-a-search-node" if dn == 0 else ("search-node-inside-the-peak" if dn < 3 * w else "no-search-node-within-3-widths")
+        tags.add(f"narrow {case['family']},s={case['s']},loc={case.get('loc', 0.0)},rel={case['rel']},pos={pos_name(case['pos'])},cp={case['cp']},{nearest},"
+                 f"mode-inside-bounds={bool(lo <= m <= hi)}")
+    return {"fails": fails[:20], "n": 1, "tags": tags, "slack": slack,
+            "sample": {"case": case, "bounds": bounds, "axis0": axes[:3, 0].tolist(), "prob0": probs[:3, 0].tolist()}}
+
+
+EVALUATORS = {"pls": ev_pls, "cond": ev_cond, "csample": ev_csample, "narrow": ev_narrow}
 
 FAMS = ["separable", "correlated", "skewed"]
 SCALES = [1e-3, 1.0, 1e3]
